@@ -313,3 +313,14 @@ Print Assumptions C12_send_datagram_iff.
 Example C12_send_datagram_mdfs1_corner : send_datagram_ok 1 1200 0 = true /\ dgram_frame_size true 0 = 2.
 Proof. exact send_datagram_mdfs1_corner. Qed.
 Print Assumptions C12_send_datagram_mdfs1_corner.
+
+(** The simulated connections (unit simlimits) are replayed through the same game (AdvEnf/SimRun.v):
+    what the in-tree server did is recorded as events (fresh streams [EvFresh], grants seen, connection
+    ID issuance and rotation, DATAGRAMs, silences) and the client's observed end state must be the
+    model's. By shape, for every parrot under the default Config, those histories are conformant and
+    end well: *)
+Example C12_simulated_histories_fine :
+  Forall (fun kv => let a := advertised kv in
+            Forall (fun h => play a (enforced_spec a default_config) h = Fine) (sim_shaped a)) advenf_all_specs.
+Proof. exact sim_shaped_fine. Qed.
+Print Assumptions C12_simulated_histories_fine.
